@@ -87,7 +87,9 @@ def decide_line(task):
     # inputs without a bare CR: every \r is followed by \n
     X = z3.Star(z3.Union(RX.ranges_re(RX.negate([(13, 13)])), RX.lit("\r\n")))
     body = z3.Star(RX.ranges_re(RX.negate([(10, 10), (13, 13)])))
-    Cc = z3.Concat(RX.lit(s), body, z3.Option(z3.Union(RX.lit("\r\n"), RX.lit("\n"))))
+    starts = s if isinstance(s, (list, tuple)) else [s]     # several %line_comment directives: union
+    alts = [z3.Concat(RX.lit(x), body, z3.Option(z3.Union(RX.lit("\r\n"), RX.lit("\n")))) for x in starts]
+    Cc = alts[0] if len(alts) == 1 else z3.Union(*alts)
     out = dict(id=sid, s=s, rx=rxs, status="ok", queries=2)
     t0 = time.time()
     st, w = RX.solve_member(lambda x: [z3.InRe(x, X), z3.InRe(x, R), z3.Not(z3.InRe(x, Cc))], timeout_ms=30000)
@@ -163,8 +165,11 @@ def main():
     for i, (s, e) in enumerate(pairs):
         reqs.append({"id": i, "grammar": GRAMMAR, "block": [["raw", s, "raw", e]], "line": []})
     line_starts = ["//", "#", "--", ";", "%", "REM", "a", "'"]
+    # single delimiters and configurations with two / three %line_comment directives
+    line_starts = line_starts + [("//", "#"), ("#", "//"), ("--", ";", "REM"), ("%", "a")]
     for j, s in enumerate(line_starts):
-        reqs.append({"id": 100000 + j, "grammar": GRAMMAR, "block": [], "line": [["raw", s]]})
+        ls = [s] if isinstance(s, str) else list(s)
+        reqs.append({"id": 100000 + j, "grammar": GRAMMAR, "block": [], "line": [["raw", x] for x in ls]})
     consts, resp = ask_driver(reqs)
     n_vec, bad_vec = selftest_translator(consts)
     if bad_vec:
@@ -232,8 +237,10 @@ def main():
             if e is None:
                 exp_len = None
                 # line comment: token = start .. first line break inclusive
-                if w.startswith(s):
-                    k = len(s)
+                st_list = [s] if isinstance(s, str) else list(s)
+                hit = [x for x in st_list if w.startswith(x)]
+                if hit:
+                    k = len(max(hit, key=len))
                     while k < len(w) and w[k] not in "\r\n":
                         k += 1
                     if w.startswith("\r\n", k):
